@@ -9,11 +9,56 @@ class C17(ProgProp):
     versions = ["3.11", "3.12", "3.13"]
     rule = ("case = (3.11/3.12/3.13, program) from G-PROG / stdlib sample; oracle: parse_exception_table == "
             "dis._parse_exception_table; Code311.co_positions() == co.co_positions() per code unit; "
-            "Code311.co_lines() == co.co_lines() per code unit; non-trivial = code object with a non-empty exception "
+            "Code311.co_lines() == co.co_lines() per code unit; the 'ExceptionTable:' rows of the classic listing == those "
+            "entries; also drawn location tables (every entry form, 1-3 byte varints) and exception tables (1-4 byte "
+            "varints) attached to native code objects; non-trivial = code object with a non-empty exception "
             "table or a location table holding a long-form / no-column / no-location entry or negative delta; "
             "distinct = (version, tables)")
     assumptions = ["co_positions()/co_lines()/dis._parse_exception_table of the producing CPython are ground truth",
                    "3.11 does not merge adjacent equal-line ranges, 3.12+ do: lines are compared per code unit"]
+
+    def judge(self, case, ctx):
+        res = super().judge(case, ctx)
+        if res.reject or case.get("k") not in ("prog", "loctab"):
+            return res
+        # the 'ExceptionTable:' sections of the listing must show exactly the entries CPython parses
+        import io
+        import os
+        import re
+        from collections import Counter
+        from vf import refworker as rw
+        ref = self.reference(case, ctx)
+        if "reject" in ref or len(ref["payload"]) > 9000:
+            return res          # (listing a big file is slow: the row check runs on small programs and drawn tables)
+        want = Counter()
+        for d in ref["dis"]:
+            for s_, e_, t_, depth, lasti in (d.get("exc") or []):
+                want["  %d to %d -> %d [%d]%s" % (s_, e_ - 2, t_, depth, " lasti" if lasti else "")] += 1
+        path = os.path.join(ctx.scratch, "c17.pyc")
+        with open(path, "wb") as f:
+            f.write(rw.unhx(ref["header"]) + rw.unhx(ref["payload"]))
+        out = io.StringIO()
+        try:
+            rw.xd().disasm.disassemble_file(path, out, "classic")
+        except Exception as e:
+            res.fail("C17|listing|raised|%s" % type(e).__name__, "classic listing raised %s: %s" % (type(e).__name__, e))
+            return res
+        got = Counter()
+        in_table = False
+        for ln in out.getvalue().split("\n"):
+            if ln == "ExceptionTable:":
+                in_table = True
+                continue
+            if in_table and re.match(r"^  -?\d+ to -?\d+ -> \d+ \[\d+\]", ln):
+                got[ln.rstrip()] += 1
+            else:
+                in_table = False
+        if got != want:
+            miss = list((want - got).elements())[:3]
+            extra = list((got - want).elements())[:3]
+            res.fail("C17|listing|exception-table-rows", "ExceptionTable rows differ from CPython's entries: missing %s, unexpected %s" % (miss, extra))
+        res.classes.append("listing-exception-rows:%d" % min(sum(want.values()), 3))
+        return res
 
     def classify(self, case, ref, x, c, res):
         keys = []
